@@ -172,6 +172,7 @@ func Harness_SM_Next(max int) {
 	vAssert(smPostPlayable(sm, ns), "C08.sb-playable")
 	vAssert(smPostPlayable(sm, nb), "C08.bb-playable")
 	cnt := 0
+	kfRegion := false
 	firstAfter := func(from int) int {
 		for k := 1; k <= max; k++ {
 			i := (from + k) % max
@@ -192,10 +193,27 @@ func Harness_SM_Next(max int) {
 		vAssert(nb == firstAfter(nd), "C08.heads-up-other-is-big-blind")
 		vCover("sm.heads-up")
 	} else if cnt >= 3 {
-		// KF-C08-HEADSUP3: the heads-up layout is chosen before waiting players behind the big blind are let in
-		vAssertK(ns == firstAfter(nd), "C08.sb-first-playable-after-dealer", "KF-C08-HEADSUP3", ns == nd)
-		vAssertK(nb == firstAfter(ns), "C08.bb-first-playable-after-sb", "KF-C08-HEADSUP3", ns == nd)
+		// KF-C08-HEADSUP3: the heads-up layout is chosen before waiting players *behind the new big
+		// blind* are let in. Region: the small blind sits on the dealer, and no seat that became playable
+		// during this Next() lies between the old and the new dealer (those are let in by nextDealer
+		// before the layout is chosen; if one of them is missed it is a different defect).
+		kfRegion = ns == nd
+		for i := 0; i < max; i++ {
+			if pre.dealer >= 0 && smBetween(max, pre.dealer, i, nd) {
+				kfRegion = vAnd(kfRegion, !vAnd(smPostPlayable(sm, i), !smPlayable(pre, i)))
+			}
+		}
+		vAssertK(ns == firstAfter(nd), "C08.sb-first-playable-after-dealer", "KF-C08-HEADSUP3", kfRegion)
+		vAssertK(nb == firstAfter(ns), "C08.bb-first-playable-after-sb", "KF-C08-HEADSUP3", kfRegion)
 		vCover("sm.three-or-more")
+	}
+	// C08 late joiner, first half: every empty seat strictly between the new dealer and the new big blind
+	// is switched off, so that whoever takes it has to wait for the button
+	for i := 0; i < max; i++ {
+		if smBetween(max, nd, i, nb) {
+			st := sm.seats[i]
+			vAssert(vImplies(st.Player == nil, !st.IsActive), "C08.empty-seats-between-dealer-and-bb-wait-for-the-button")
+		}
 	}
 	// C08 late joiner
 	if pending >= 0 {
@@ -204,7 +222,7 @@ func Harness_SM_Next(max int) {
 			vAssert(smPostPlayable(sm, pending), "C08.late-joiner-dealt-in-once-button-passed")
 			vCover("sm.late-joiner-in")
 		} else if pending != nd {
-			vAssertK(!smPostPlayable(sm, pending), "C08.late-joiner-not-before-button-passes", "KF-C08-HEADSUP3", ns == nd)
+			vAssertK(!smPostPlayable(sm, pending), "C08.late-joiner-not-before-button-passes", "KF-C08-HEADSUP3", kfRegion)
 			vCover("sm.late-joiner-waits")
 		}
 	}
